@@ -58,9 +58,10 @@ pub fn check_long_bound(exact: &Oh, bounded: &Oh, t: NaiveDateTime, bound: Durat
     judge(bounded, t, bound, exact_next, stream::date_end())
 }
 
-/// Pointwise oracle up to bounds of 4000 days, the unbounded next_change beyond.
+/// Pointwise oracle up to bounds of 20 000 days (the thorough tier draws 18 263-day bounds in 10% of its
+/// cases: a scan of 50 years costs 40 ms, an unbounded walk seconds), the unbounded next_change beyond.
 pub fn check_auto(exact: &Oh, bounded: &Oh, t: NaiveDateTime, bound: Duration) -> Result<Observed, String> {
-    if bound.num_days() > 4000 {
+    if bound.num_days() > 20_000 {
         check_long_bound(exact, bounded, t, bound)
     } else {
         check(exact, bounded, t, bound)
